@@ -41,7 +41,7 @@ fn core() -> &'static Vec<Prog> {
 }
 
 pub fn total(tier: u8) -> usize {
-    core().len() + if tier == 0 { 500 } else { 10_000 }
+    core().len() + if tier == 0 { 500 } else { 4_000 }
 }
 
 pub fn prog_at(_tier: u8, seed: u64, idx: usize) -> Prog {
